@@ -204,6 +204,18 @@ func c14JSONBodies(rng *rand.Rand, g *jgen, body *JS) []string {
 		or := &oracle{seen: map[string]bool{}}
 		for k := 0; k < 6; k++ {
 			var doc interface{}
+			if body.Kind == "arr" {
+				// valid arrays (weighted): several elements with different optional subsets, so that a decoder that lets one
+				// element leak into the next is seen
+				var els []interface{}
+				for e := 0; e < 2+rng.Intn(3); e++ {
+					els = append(els, g.genDoc(body.Inner, or))
+				}
+				for w := 0; w < 8; w++ {
+					out = append(out, marshalDoc(els, rng))
+				}
+				out = append(out, "[]", "[]")
+			}
 			if body.Kind == "obj" {
 				doc = g.genDoc(body, or)
 				d := doc.(map[string]interface{})
